@@ -274,6 +274,13 @@ func IsEntityEqual(prevJson []byte, thisJson []byte, prevEntity *Entity, thisEnt
 	if !(len(prevJson) == len(thisJson)) {
 		return false
 	}
+	// equal length does not imply equal keys: a dropped deleted flag frees exactly the room
+	// for another key, and the loops below only visit the keys of the previous version
+	if prevEntity.IsDeleted != thisEntity.IsDeleted ||
+		len(prevEntity.References) != len(thisEntity.References) ||
+		len(prevEntity.Properties) != len(thisEntity.Properties) {
+		return false
+	}
 
 	// assuming that the length check is enough to determine that refs and props have the same keys
 	// it is theoretically possible to have the same json length with different keys ... consider matching keys in both objects as well.
